@@ -284,3 +284,64 @@ func Harness_C10_p2p_settles_after_unload() {
 	verifAssert(unregs == 1, "unloaded-topic-unregistered-once")
 	verifReach("end")
 }
+
+// ---- (5) one step of the contact-table state machine (procPresReq on a 'me' topic) for a KNOWN contact:
+// a contact this user does not take presence from is never recorded online; an enabled contact's recorded
+// status is what it last reported; only a changed status of an enabled contact is forwarded to the sessions.
+func Harness_C10_presreq_step() {
+	verifNewStore()
+	verifInitGlobals()
+	me := verifMeTopic(types.Uid(1))
+	from := types.Uid(2).UserId()
+	en0 := verifNondetBool("enabled")
+	on0 := verifNondetBool("online") && en0
+	me.perSubs[from] = perSubsData{online: on0, enabled: en0}
+	what := []string{"on", "off", "?none", "?unkn", "gone"}[verifChoose("what", 5)]
+	cmd := []string{"", "+en", "+dis", "+rem"}[verifChoose("cmd", 4)]
+	fwd := me.procPresReq(from, what+cmd, verifNondetBool("wantReply"))
+	psd, in := me.perSubs[from]
+	if cmd == "+rem" || what == "gone" {
+		verifAssert(!in, "removed-contact-forgotten")
+	} else {
+		verifAssert(in, "known-contact-stays")
+		en1 := (en0 || cmd == "+en") && cmd != "+dis"
+		verifAssert(psd.enabled == en1, "enabled-follows-the-command")
+		verifAssert(psd.enabled || !psd.online, "disabled-contact-never-recorded-online")
+		if psd.enabled {
+			switch what {
+			case "on":
+				verifAssert(psd.online, "enabled-contact-online-after-on")
+			case "off":
+				verifAssert(!psd.online, "enabled-contact-offline-after-off")
+			default:
+				verifAssert(psd.online == on0, "status-unchanged-by-a-query")
+			}
+		}
+		// what the user's sessions are told
+		if psd.enabled && (what == "on" || what == "off") && psd.online != on0 {
+			verifAssert(fwd == what, "changed-status-of-an-enabled-contact-is-forwarded")
+		}
+		if !psd.enabled && !en0 {
+			verifAssert(fwd == "", "nothing-forwarded-about-a-disabled-contact")
+		}
+	}
+	verifReach("end")
+}
+
+// mute then un-mute while the contact stays online: the user must be told "on" again
+func Harness_C10_mute_unmute() {
+	verifNewStore()
+	verifInitGlobals()
+	me := verifMeTopic(types.Uid(1))
+	from := "grpAAAAAAAAAAB"
+	me.perSubs[from] = perSubsData{online: true, enabled: true}
+	f1 := me.procPresReq(from, "off+dis", false)
+	verifAssert(f1 == "off", "muting-tells-the-user-off")
+	f2 := me.procPresReq(from, []string{"on+en", "?unkn+en"}[verifChoose("unmute", 2)], false)
+	if f2 != "on" {
+		// the un-mute itself was a query: the contact then reports its status
+		f2 = me.procPresReq(from, "on", false)
+	}
+	verifAssert(f2 == "on", "unmuting-an-online-contact-tells-the-user-on")
+	verifReach("end")
+}
